@@ -241,7 +241,9 @@ pub fn run_c05(opts: &Opts, out: &mut Emitter) {
         let Some(tx) = lower(&t) else { continue };
         let a = *r.pick(&[0u64, 1, 44, 44, 44, 1000]);
         let b = *r.pick(&[0u64, 155_381, 155_381, 1_000_000]);
-        let extra = *r.pick(&[None, Some(0u64), Some(0), Some(5000)]);
+        // the configured margin: absent (the default applies), none, small, the sizes people set, and large ones
+        let extra = *r.pick(&[None, Some(0u64), Some(0), Some(5000), Some(1), Some(200_000), Some(1_200_000), Some(4_999_999),
+            Some(5_000_000), Some(5_000_001), Some(7_500_000), Some(25_000_000), Some(1_000_000_000), Some(1 << 32), Some(1 << 40)]);
         let margin: u64 = extra.unwrap_or(200_000);
         let q: i128 = *r.pick(&[1_000_000i128, 2_000_000, 5]);
         // aim the change (or the fee) at a CBOR width boundary: 24, 2^8, 2^16, 2^32
@@ -250,7 +252,7 @@ pub fn run_c05(opts: &Opts, out: &mut Emitter) {
         let fee_guess = a as i128 * len_guess + b as i128 + margin as i128;
         let jitter = r.range(-40, 40) as i128 * (a as i128).max(1) / 8;
         let input = match r.below(4) {
-            0 => r.range(3_000_000, 80_000_000) as i128,
+            0 => r.range(3_000_000, 80_000_000) as i128 + margin as i128,
             _ => (width + q + fee_guess + jitter).max(1),
         };
         let mut amounts = vec![input];
